@@ -392,6 +392,24 @@ fn harnesses(def: &ModuleDef, vars: &[Vec<Field>], max_size: usize, max_align: u
         writeln!(o, "        assert!(no_token_leaked(), \"C06: a value moved into the record was never destroyed (every value moved into the record destroyed exactly once)\");").unwrap();
         writeln!(o, "    }}\n").unwrap();
 
+        // ---- C04: the From<Unpacked..> / From<UnpackedUninit..> impls ---------------------------
+        hdr(&mut o, &format!("c04_v{k}_from_unpacked_impls"));
+        seeds(&mut o, fields, "s");
+        writeln!(o, "        let r: Record{k} = Record{k}::from({});", literal(&format!("UnpackedRecord{k}"), fields, &|f| format!("s_{}", f.name))).unwrap();
+        check_acc(&mut o, "r", fields, &|f| format!("s_{}", f.name), "C04 From<UnpackedRecord>");
+        writeln!(o, "        drop(r);").unwrap();
+        {
+            let mandatory: Vec<Field> = fields.iter().filter(|f| !f.uninit).cloned().collect();
+            seeds(&mut o, &mandatory, "m");
+            writeln!(o, "        let r2: Record{k} = Record{k}::from({});", literal(&format!("UnpackedUninitRecord{k}"), &mandatory, &|f| format!("m_{}", f.name))).unwrap();
+            check_acc(&mut o, "r2", &mandatory, &|f| format!("m_{}", f.name), "C04 From<UnpackedUninitRecord>");
+            // a record whose optional fields were never written must still be droppable
+            writeln!(o, "        drop(r2);").unwrap();
+        }
+        writeln!(o, "        assert!(no_token_dropped_twice(), \"C06 C07: a value was destroyed twice (From<Unpacked..>)\");").unwrap();
+        writeln!(o, "        assert!(no_token_leaked(), \"C06: a value moved into the record was never destroyed (From<Unpacked..>)\");").unwrap();
+        writeln!(o, "    }}\n").unwrap();
+
         // ---- C04: placements (Box, Vec element), drop without unpack -------------------------
         hdr(&mut o, &format!("c04_v{k}_heap_placements_and_drop"));
         seeds(&mut o, fields, "s");
